@@ -126,12 +126,18 @@ def main():
     u = DCm.Dist()
     for k in ('_TemplateBuildDistinguisherMixin._compute', '_TemplateBuildDistinguisherMixin._check', '_BaseTemplateAttackDistinguisherMixin._initialize', '_BaseTemplateAttackDistinguisherMixin._update', '_BaseTemplateAttackDistinguisherMixin._compute',
               'TemplateAttackDistinguisherMixin.get_template_index', 'TemplateAttackDistinguisherMixin._get_dimension', 'TemplateDPADistinguisherMixin._get_dimension'): rep.function(TM + '::' + k, u.sha(TM + '::' + k))
-    units = [('build', 2, 'float64'), ('build', 2, 'float32'), ('build', 3, 'float64'), ('match',), ('bm',), ('tm', 'static', 'float64'), ('tm', 'static', 'float32'), ('tdpa', [3, 1, 2, 0]), ('tdpa', [0, 1, 2, 3])]      # tdpa: matching picks the template of the class whose VALUE is the hypothesis (contract shared with C12)
+    units = [('build', 2, 'float64'), ('build', 2, 'float32'), ('build', 3, 'float64'), ('match',), ('bm',), ('tm', 'static', 'float64'), ('tm', 'static', 'float32'), ('tdpa', [3, 1, 2, 0]), ('tdpa', [0, 1, 2, 3]), ('kinv', 'uint8', 'float32'), ('kinv', 'int8', 'float64'), ('kinv', 'int16', 'float32'), ('kinv', 'float32', 'float64'), ('k2', 'uint8', 'float32'), ('k2', 'int16', 'float64')]      # kinv / k2: the build accumulators are the class moments (kernels shared with C01 / C11); tdpa: matching picks the template of the class whose VALUE is the hypothesis (contract shared with C12)
     def work(sub, kind, *args):
         if kind == 'build': build_compute(u, sub, args[0], args[1], timeout)
         elif kind == 'match': matching(u, sub, timeout)
         elif kind == 'bm': build_method(u, sub)
         elif kind == 'tm': C1.template_matching_update(u, sub, args[0], args[1], timeout)
+        elif kind == 'kinv':
+            from props import kernel_inv as KI
+            KI.report(sub, KI.template_core1(u, args[0], args[1]), 'template build kernel 1 loop invariants, all extents symbolic, %s->%s' % args, TM + '::_TemplateBuildDistinguisherMixin._accumulate_core_1', timeout, (1, 1), native, dict(kind='build'))
+        elif kind == 'k2':
+            from props import kernels as KN_
+            KN_.report_kernel(sub, KN_.template_kernel(u, 2, 2, 2, 2, args[0], args[1]), 'template build kernel 2, 2 traces x 2 samples x 2 classes, %s->%s' % args, TM + '::_TemplateBuildDistinguisherMixin._accumulate_core_2', timeout, native, dict(kind='build'))
         elif kind == 'tdpa':
             from props import c12 as C12_
             C12_.template_dpa_index(u, sub, args[0], timeout)
